@@ -7,16 +7,53 @@ use serde_json::{json, Value};
 
 use crate::{checks::graphs::*, pipe, report::*, sched, synx, util};
 
+/// The types an error message says could not be resolved. The wording is not part of the property: the
+/// current list syntax is read as such; any other wording is scanned for the generated type paths
+/// (`m<i>::T<j>`), leaving out a clause that lists the types that *were* resolved.
 fn parse_failed_types(err: &str) -> Option<BTreeSet<String>> {
-    let start = err.find("failed on types: [")? + "failed on types: [".len();
-    let end = err[start..].find(']')? + start;
-    Some(
-        err[start..end]
-            .split(',')
-            .map(|s| s.trim().trim_matches('"').to_string())
-            .filter(|s| !s.is_empty())
-            .collect(),
-    )
+    if let Some(at) = err.find("failed on types: [") {
+        let start = at + "failed on types: [".len();
+        let end = err[start..].find(']')? + start;
+        return Some(
+            err[start..end]
+                .split(',')
+                .map(|s| s.trim().trim_matches('"').to_string())
+                .filter(|s| !s.is_empty())
+                .collect(),
+        );
+    }
+    let lower = err.to_lowercase();
+    let cut = ["resolved types", "already resolved", "were resolved"].iter().filter_map(|k| lower.find(k)).filter(|at| !lower[..*at].trim_end().ends_with("un") && !lower[..*at].ends_with("not ")).min().unwrap_or(err.len());
+    let text = &err[..cut];
+    let mut out = BTreeSet::new();
+    let b = text.as_bytes();
+    let mut i = 0;
+    while i < b.len() {
+        // m<digits>::T<digits>, not preceded by an identifier character
+        if b[i] == b'm' && (i == 0 || !(b[i - 1].is_ascii_alphanumeric() || b[i - 1] == b'_')) {
+            let mut j = i + 1;
+            while j < b.len() && b[j].is_ascii_digit() {
+                j += 1;
+            }
+            if j > i + 1 && text[j..].starts_with("::T") {
+                let mut k = j + 3;
+                while k < b.len() && b[k].is_ascii_digit() {
+                    k += 1;
+                }
+                if k > j + 3 {
+                    out.insert(text[i..k].to_string());
+                    i = k;
+                    continue;
+                }
+            }
+        }
+        i += 1;
+    }
+    if out.is_empty() {
+        None
+    } else {
+        Some(out)
+    }
 }
 
 fn check_one(g: &GraphCase, ps: usize) -> (pipe::Verdict, Option<(String, String)>) {
